@@ -66,10 +66,10 @@ def leaf_monitor(script, c):
     return hits
 
 
-def api_scripts(tier, rng):
+def api_scripts(tier, rng, n=None):
     from lib.apigen import default_policy, rand_key, rtp_packet, pkt_op, SSRC_ANY_OUT, SSRC_ANY_IN, SSRC_SPECIFIC
     out = []
-    n = 12 if tier == "quick" else 120
+    n = n or (12 if tier == "quick" else 120)
     for k in range(n):
         wildcard = k % 2 == 1
         ssrcs = [rng.randrange(2, 1 << 32) for _ in range(2 if wildcard else 1)]
@@ -99,7 +99,8 @@ def api_scripts(tier, rng):
         start = rng.choice([0x10003, 0x10002, 0x10001, 0x10000, 4, 3, 2, 1])
         which = 1 if wildcard else 0
         L.append(f"poke_limit 1 {which} {H(ssrcs[0])} 0 {H(start)} 0")
-        L.append(f"poke_limit 2 {which} {H(ssrcs[0])} 0 {H(start + rng.choice([0, 1, 2]))} 0")
+        # the receiver's budget may also be the smaller one, so that srtp_unprotect itself reaches the hard limit
+        L.append(f"poke_limit 2 {which} {H(ssrcs[0])} 0 {H(max(1, start + rng.choice([0, 1, 2, -1, -2])))} 0")
         for i in range(10):
             traffic(rng.choice(ssrcs), 0)
             if mki and rng.random() < 0.3:
@@ -125,6 +126,13 @@ def api_monitor(script, c):
         if len(op) < 8 or len(before) < 11 or len(after) < 11 or before[2] != "0" or after[2] != "0":
             continue
         st = int(op[2], 16)
+        if side == "RX":
+            # the packet fed in is the output of the protect call just before; when that call failed (the sender's key has
+            # expired) there is no packet and the unprotect call is rejected as malformed before any key is looked at
+            ref = sl[i - 3].split("|")[1].strip() if "|" in sl[i - 3] else ""
+            src = out.get(int(ref[1:], 16), []) if ref.startswith("@") else []
+            if len(src) < 3 or src[2] != "0":
+                continue
         b, a = int(before[10], 16), int(after[10], 16)
         ev = op[7]
         evs = [int(ev[j:j + 2], 16) for j in range(0, len(ev), 10)] if ev != "-" else []
@@ -151,4 +159,7 @@ def api_monitor(script, c):
 def families(tier, seed):
     rng = random.Random(seed * 1000 + 9)
     return [Family("keylimit-leaf", leaf_scripts(tier, rng), monitor=leaf_monitor),
-            Family("keylimit-api", api_scripts(tier, rng), monitor=api_monitor)]
+            Family("keylimit-api", api_scripts(tier, rng), monitor=api_monitor),
+            # AES-GCM streams (OpenSSL configuration): srtp_protect_aead charges first, srtp_unprotect_aead after authentication
+            Family("gcm-keylimit-api", __import__("lib.apigen", fromlist=["x"]).with_aead(api_scripts, tier, random.Random(seed * 1000 + 109), n=(6 if tier == "quick" else 80)),
+                   monitor=api_monitor, config="openssl")]
